@@ -955,6 +955,9 @@ class Model(Object):
             else:
                 self.groups.remove(group)
                 group._model = None
+                # remove reference to the group in all groups
+                for other in self.get_associated_groups(group):
+                    other.remove_members([group])
 
     def get_associated_groups(
         self, element: Union[Reaction, Gene, Metabolite]
